@@ -462,7 +462,7 @@ func toSubdomainURL(hostname, path string, r *http.Request, inlineDNSLink bool, 
 		// for further normalization: https://github.com/ipfs/ipfs-companion/issues/1278#issuecomment-1724550623
 		if ns == "ipns" && !strings.Contains(rootID, ".") && strings.Contains(rootID, "-") {
 			dnsLinkFqdn := UninlineDNSLink(rootID) // my-v--long-example-com → my.v-long.example.com
-			if hasDNSLinkRecord(r.Context(), backend, dnsLinkFqdn) {
+			if strings.Contains(dnsLinkFqdn, ".") && hasDNSLinkRecord(r.Context(), backend, dnsLinkFqdn) {
 				// update path prefix to use real FQDN with DNSLink
 				rootID = dnsLinkFqdn
 			}
